@@ -2,6 +2,7 @@ package syncmap
 
 import (
 	"iter"
+	"maps"
 	"sync"
 )
 
@@ -16,9 +17,18 @@ func New[K comparable, V any]() *SyncMap[K, V] {
 	}
 }
 
+// Returns a copy of the underlying map taken under the read lock.
+func (s *SyncMap[K, V]) snapshot() map[K]V {
+	s.mu.RLock()
+	defer s.mu.RUnlock()
+	return maps.Clone(s.ma)
+}
+
 func (s *SyncMap[K, V]) Keys() iter.Seq[K] {
 	return func(yield func(K) bool) {
-		for k := range s.ma {
+		// Iterate over a snapshot so the callback may call back into the map
+		// and concurrent writers are not raced with.
+		for k := range s.snapshot() {
 			if !yield(k) {
 				return
 			}
@@ -28,7 +38,7 @@ func (s *SyncMap[K, V]) Keys() iter.Seq[K] {
 
 func (s *SyncMap[K, V]) Items() iter.Seq[V] {
 	return func(yield func(V) bool) {
-		for _, v := range s.ma {
+		for _, v := range s.snapshot() {
 			if !yield(v) {
 				return
 			}
